@@ -215,6 +215,16 @@ _CTX = {}
 
 def from_real(L: Logic, world: World, r, shape=None):
     """real python result -> symbolic value with concrete predicates.  `shape` is the spec value (guides the kind)."""
+    v = _from_real(L, world, r, shape)
+    if isinstance(r, (list, tuple, set, frozenset)) and not r:
+        try:
+            v.concrete_empty = True      # an empty container has no element arity: contracts stated by `post` only may look at this
+        except Exception:
+            pass
+    return v
+
+
+def _from_real(L: Logic, world: World, r, shape=None):
     graph = y0mod("y0.graph")
     dsl = y0mod("y0.dsl")
     import networkx as nx
